@@ -292,10 +292,10 @@ Proof.
   rewrite Cr in A2. apply Ok_inj in A2. subst a'.
   destruct (gather_lengths _ _ _ _ _ _ _ _ _ _ G) as [GL _].
   assert (Pos : 0 < gx /\ 0 < gy /\ 0 < gz).
-  { unfold encode_at in E. destruct (size_checks wx wy wz ox oy oz gx gy gz) eqn:SC; [|discriminate].
+  { unfold encode_at, encode_gen in E. destruct (size_checks wx wy wz ox oy oz gx gy gz) eqn:SC; [|discriminate].
     unfold size_checks in SC. rewrite !andb_true_iff, !negb_true_iff, !orb_false_iff in SC.
     destruct SC as [[[_ [[A B] D]] _] _]. apply N.ltb_ge in A, B, D. lia. }
-  destruct Cases as [[l [Et Eb]] | [Hne [_ S]]].
+  destruct Cases as [[l [Et Eb]] | [Hne S]].
   - subst b tbl.
     assert (a = repeat l (N.to_nat (8 * gx * (8 * gy) * (8 * gz)))) as ->.
     { apply all_eq_repeat; [exact A3|]. intros v Hv. specialize (C v (A4 v Hv)). destruct C as [C|[]]. now symmetry. }
